@@ -5,7 +5,8 @@
 (*   [id, kd, calls, st]                                                   *)
 (*   kd     kind of the store operation ("plain" | "bulk" | "bulk1")       *)
 (*   calls  <<[o, r, p, ns]>> per invocation of the wrapped client function:*)
-(*          o = [k, code, items (array)] what the scripted client did,      *)
+(*          o = [k, code, items (array), shape] what the scripted client    *)
+(*          did (shape of the ApiError body / of the bulk items' error),    *)
 (*          r = value of random.random() drawn before it (1/1024),          *)
 (*          p = total time.sleep() after it and before the next invocation  *)
 (*              or the end (1/1024 s), ns = number of time.sleep() calls    *)
@@ -26,7 +27,7 @@ VARIABLES i
 
 NoAlpha(kd) == {}     \* the trace specification does not generate outcomes
 
-NormCall(c) == [o |-> [k |-> c.o.k, code |-> c.o.code, items |-> ToSet(c.o.items)], r |-> c.r, p |-> c.p, ns |-> c.ns]
+NormCall(c) == [o |-> [k |-> c.o.k, code |-> c.o.code, items |-> ToSet(c.o.items), shape |-> c.o.shape], r |-> c.r, p |-> c.p, ns |-> c.ns]
 NormCalls(cs) == [j \in 1..Len(cs) |-> NormCall(cs[j])]
 
 RECURSIVE Replay(_, _, _)
